@@ -182,6 +182,126 @@ func specSubset(n int) xstate.Spec {
 	}
 }
 
+
+// specResync: the strict case with UpstreamCluster events that touch neither the policy's endpoints nor their
+// readiness delivered between picks - the same object again (informer resync), a logging switch, a flow-control
+// edit - on a cluster that also has a disabled server outside the subset. The policy's ready set is stable across
+// them, so the window of consecutive picks runs across them.
+func specResync() xstate.Spec {
+	const n = 2
+	type sysR struct {
+		sysSub
+		obj  *proxyv1alpha1.UpstreamCluster
+		tick int
+	}
+	build := func(tick int) *proxyv1alpha1.UpstreamCluster {
+		yes := true
+		servers := []proxyv1alpha1.UpstreamClusterServer{{Endpoint: epName(0)}, {Endpoint: epName(1)}, {Endpoint: epName(2), Disabled: &yes}}
+		pol := proxyv1alpha1.DispatchPolicy{UpstreamSubset: []string{epName(0), epName(1)}, Rules: []proxyv1alpha1.DispatchPolicyRule{{Verbs: []string{"*"}, APIGroups: []string{"*"}, Resources: []string{"*"}, NonResourceURLs: []string{"*"}}}}
+		o := kit.Upstream("c14", servers, []proxyv1alpha1.DispatchPolicy{pol})
+		if tick%2 == 1 {
+			o.Spec.Logging.Mode = proxyv1alpha1.LogOn
+		}
+		if tick/2%2 == 1 {
+			o.Spec.FlowControl.Schemas = []proxyv1alpha1.FlowControlSchema{{Name: "extra", FlowControlSchemaConfiguration: proxyv1alpha1.FlowControlSchemaConfiguration{Exempt: &proxyv1alpha1.ExemptFlowControlSchema{}}}}
+		}
+		return o
+	}
+	return xstate.Spec{
+		Name: "subset-k2-with-unrelated-syncs",
+		New: func() interface{} {
+			s := &sysR{obj: build(0)}
+			ci, err := clusters.CreateClusterInfo(s.obj, kit.NoopCheck, "", nil)
+			if err != nil {
+				panic(err)
+			}
+			s.ci, s.n, s.ready = ci, n, []bool{true, true}
+			for i := 0; i < n; i++ {
+				e, _ := ci.Endpoints.Load(epName(i))
+				e.UpdateStatus(true, "", "")
+			}
+			return s
+		},
+		Events: func(interface{}) []string {
+			return []string{"pick", "flip 0", "flip 1", "resync", "sync-logging", "sync-flowcontrol"}
+		},
+		Apply: func(si interface{}, e string) error {
+			s := si.(*sysR)
+			switch {
+			case strings.HasPrefix(e, "flip"):
+				var i int
+				fmt.Sscanf(e, "flip %d", &i)
+				s.ready[i] = !s.ready[i]
+				ep, _ := s.ci.Endpoints.Load(epName(i))
+				ep.UpdateStatus(s.ready[i], "", "")
+				s.window = nil
+				return nil
+			case e == "resync" || e == "sync-logging" || e == "sync-flowcontrol":
+				if e == "sync-logging" {
+					s.tick ^= 1
+				}
+				if e == "sync-flowcontrol" {
+					s.tick ^= 2
+				}
+				s.obj = build(s.tick)
+				if err := s.ci.Sync(s.obj); err != nil {
+					return fmt.Errorf("sync-failed: %v", err)
+				}
+				// an endpoint keeps its health across a Sync that does not touch it
+				for i := 0; i < n; i++ {
+					ep, _ := s.ci.Endpoints.Load(epName(i))
+					if ep == nil || ep.IsReady() != s.ready[i] {
+						return fmt.Errorf("readiness-changed-by-unrelated-sync: endpoint %d ready=%v expected %v after %s", i, ep != nil && ep.IsReady(), s.ready[i], e)
+					}
+				}
+				return nil // the policy's ready set is unchanged: the window goes on
+			}
+			got, err := pick(s.ci)
+			k := 0
+			for _, r := range s.ready {
+				if r {
+					k++
+				}
+			}
+			if k == 0 {
+				if err == nil {
+					return fmt.Errorf("picked-unready: no endpoint is ready but endpoint %d was picked", got)
+				}
+				return nil
+			}
+			if err != nil {
+				return fmt.Errorf("pick-failed: %d endpoints ready but pick failed: %v", k, err)
+			}
+			if got >= n || !s.ready[got] {
+				return fmt.Errorf("picked-unready: endpoint %d is not a ready endpoint of the subset (ready=%v)", got, s.ready)
+			}
+			s.window = append(s.window, got)
+			return balanced(s.window, s.ready)
+		},
+		Canon: func(si interface{}) string {
+			s := si.(*sysR)
+			var cur []string
+			for mask := 1; mask < 1<<uint(n); mask++ {
+				var order []string
+				for i := 0; i < n; i++ {
+					if mask&(1<<uint(i)) != 0 {
+						order = append(order, epName(i))
+					}
+				}
+				if v, ok := s.ci.VerifCursor(order); ok {
+					cur = append(cur, fmt.Sprintf("%d:%d", mask, v%uint64(len(order))))
+				}
+			}
+			w := s.window
+			if len(w) > 2*n {
+				w = w[len(w)-2*n:]
+			}
+			return fmt.Sprint(s.ready, cur, w, s.tick)
+		},
+		Close: func(si interface{}) { si.(*sysR).ci.Stop() },
+	}
+}
+
 // ------------------------------------------------------------------ engine B, no-subset case (map order is a choice)
 
 type sysAll struct {
@@ -378,7 +498,7 @@ func main() {
 		"no-subset case: Go leaves sync.Map.Range order unspecified; the shim makes each Range order an enumerated choice; the allowed constant is k! (one strict cursor per ordering)",
 		"readiness flips are applied with EndpointInfo.UpdateStatus (what a probe outcome does)",
 	}
-	specs := []xstate.Spec{specSubset(2), specSubset(3), specSubset(4), specAll(2), specAll(3)}
+	specs := []xstate.Spec{specSubset(2), specSubset(3), specSubset(4), specAll(2), specAll(3), specResync()}
 	if c.ReplayFile() != "" {
 		xstate.ReplayIfAsked(c, specs)
 		xa.ReplayIfAsked(c, allHarnesses(c, 0))
@@ -387,6 +507,7 @@ func main() {
 	tasks = append(tasks, xstate.Tasks(c, specSubset(2), c.Pick(9, 12), 1)...)
 	tasks = append(tasks, xstate.Tasks(c, specSubset(3), c.Pick(9, 12), 4)...)
 	tasks = append(tasks, xstate.Tasks(c, specSubset(4), c.Pick(8, 11), 5)...)
+	tasks = append(tasks, xstate.Tasks(c, specResync(), c.Pick(8, 11), 6)...)
 	tasks = append(tasks, xstate.Tasks(c, specAll(2), c.Pick(40, 60), 1)...)
 	tasks = append(tasks, xstate.Tasks(c, specAll(3), c.Pick(14, 20), 6)...)
 	bounds := []int{0, 1, 2}
